@@ -373,6 +373,10 @@ func genValue(r *rng, t reflect.Type, o genOpts) string {
 		return "[" + strings.Join(parts, ",") + "]"
 	case reflect.Array:
 		if t.Elem().Kind() == reflect.Uint8 {
+			if t == reflect.TypeOf(Digest{}) && o.jsonSafe {
+				// Digest is transformed to a string of its bytes: JSON carries valid UTF-8 text only
+				return "X" + hexStr(t.Len(), byte(0x30+r.intn(0x40)))[:0] + fmt.Sprintf("%x", []byte{byte(0x30 + r.intn(70)), byte(0x30 + r.intn(70)), byte(0x30 + r.intn(70)), byte(0x30 + r.intn(70))})
+			}
 			return "X" + hexStr(t.Len(), byte(r.intn(256)))
 		}
 		parts := make([]string, t.Len())
@@ -421,7 +425,7 @@ func genValue(r *rng, t reflect.Type, o genOpts) string {
 				cs = append(cs, reflect.TypeOf([]byte{}))
 			}
 			if o.tagged && o.cbor {
-				cs = append(cs, reflect.TypeOf(Inner{}), reflect.TypeOf(TrNum(0)), reflect.TypeOf(TrBytes{}), reflect.TypeOf(TrSq{}), reflect.TypeOf(TrOpt{}))
+				cs = append(cs, reflect.TypeOf(Inner{}), reflect.TypeOf(TrNum(0)), reflect.TypeOf(TrBytes{}), reflect.TypeOf(TrSq{}), reflect.TypeOf(TrOpt{}), reflect.TypeOf(TrW{}), reflect.TypeOf(TrN{}), reflect.TypeOf(Digest{}))
 			}
 		}
 		ct := cs[r.intn(len(cs))]
